@@ -288,12 +288,12 @@ Section Load.
     (forall s ss s', cs_top s -> callee s ss = (Ok, s') -> body_rel s s') ->
     forall st s st', cs_top st -> exec_stmt_with callee st s = (Ok, st') -> body_rel st st'.
   Proof.
-    intros callee Hc st s st' Hcs H. destruct s as [z | f | x | x | x | x c m]; simpl in H.
+    intros callee Hc st s st' Hcs H. destruct s as [z | f | x | x | x | x c m | x f]; simpl in H.
     - inversion H; subst. unfold body_rel, emit. simpl. repeat split. exists [EMark z]. split; auto.
       constructor; [eexists; eauto | constructor].
     - destruct (find_with_module st f) as [[v m]|]; [|discriminate].
-      destruct v; try discriminate.
-      destruct (in_exec_block (push_frame st m) None (fun s => callee s body)) as [r st2] eqn:E.
+      destruct v as [h body | ? ? | ? ? | | ]; try discriminate.
+      destruct (in_exec_block (push_frame st h) None (fun s => callee s body)) as [r st2] eqn:E.
       destruct r; inversion H; subst. eapply call_frame_ok; eauto.
     - destruct (find_element st x); inversion H; subst. apply body_rel_refl.
     - destruct (scope_set (sc_syms (cur_scope st)) x VNum); inversion H; subst.
@@ -322,6 +322,9 @@ Section Load.
       eapply body_rel_trans; [apply same_core_body; exact C0|].
       eapply call_frame_ok; eauto.
       unfold cs_top in *. destruct C0 as (_&_&C3&C4&_). rewrite C3, C4. auto.
+    - destruct (find_element st f) as [v|]; [|discriminate].
+      destruct (declare st x v false None) eqn:E; inversion H; subst.
+      apply declare_ok in E. apply same_core_body. tauto.
   Qed.
 
   Lemma exec_stmts_ok : forall fuel st ss st', cs_top st -> exec_stmts fuel st ss = (Ok, st') -> body_rel st st'.
@@ -487,7 +490,7 @@ Section Load.
   Proof.
     induction ds as [|d ds IH]; intros st id r st' H; simpl in H.
     - inversion H; subst. apply same_sig_refl.
-    - destruct (match d with DFun n body => (n, VFun body) | DClass n ms => (n, VClass n ms) end) as [x v].
+    - destruct (match d with DFun n body => (n, VFun id body) | DClass n ms => (n, VClass n ms) end) as [x v].
       destruct (declare st x v true None) as [st1|] eqn:E1; [|inversion H; subst; apply same_sig_refl].
       apply declare_ok in E1. destruct E1 as (C1 & _). apply same_core_sig in C1.
       destruct (add_export st1 id x v) as [st2|] eqn:E2; [|inversion H; subst; auto].
@@ -1066,21 +1069,75 @@ Section Load.
     rewrite (Hloc y eq_refl). reflexivity.
   Qed.
 
+  (* a method found under a name of the current scope (imported or a local variable: whatever [y_ext] is) runs on a
+     frame of the module recorded in the method value itself *)
+  Theorem method_call_frame : forall (callee : vm -> list stmt -> res * vm) st x y h body r st',
+    scope_lookup (sc_syms (cur_scope st)) x = Some y ->
+    y_val y = VFun h body ->
+    assoc_find (m_exports (get_mod st (cur_id st))) x = None ->
+    exec_stmt_with callee st (SCall x) = (r, st') ->
+    exists sa sb r0, v_cs sa = Some h /\ v_mods sa = v_mods st /\ v_trace sa = v_trace st /\
+                     callee sa body = (r0, sb) /\
+                     r = match r0 with Ok => Ok | other => wrap_exc other end.
+  Proof.
+    intros callee st x y h body r st' Hl Hv Hown H. simpl in H. unfold find_with_module in H.
+    rewrite Hl, Hown, Hv in H. destruct (Nat.eqb (y_depth y) 0); simpl in H;
+    destruct (in_exec_block (push_frame st h) None (fun s => callee s body)) as [r0 st2] eqn:E;
+    apply in_exec_block_inv in E; destruct E as (sa & sb & C1 & Hrun & C2);
+    destruct (push_frame_fields st h) as (P1&P2&P3&P4&P5); destruct C1 as (A1&A2&A3&A4&A5);
+    exists sa, sb, r0; (split; [congruence|]); (split; [congruence|]); (split; [congruence|]); (split; [auto|]);
+    destruct r0; inversion H; auto.
+  Qed.
+
   Theorem imported_call_frame : forall (callee : vm -> list stmt -> res * vm) st f y h body r st',
     scope_lookup (sc_syms (cur_scope st)) f = Some y ->
-    y_ext y = Some h -> y_val y = VFun body ->
+    y_ext y = Some h -> y_val y = VFun h body ->
     assoc_find (m_exports (get_mod st (cur_id st))) f = None ->
     exec_stmt_with callee st (SCall f) = (r, st') ->
     exists sa sb r0, v_cs sa = Some h /\ v_mods sa = v_mods st /\ v_trace sa = v_trace st /\
                      callee sa body = (r0, sb) /\
                      r = match r0 with Ok => Ok | other => wrap_exc other end.
   Proof.
-    intros callee st f y h body r st' Hl He Hv Hown H. simpl in H. unfold find_with_module in H.
-    rewrite Hl, Hown, He, Hv in H. destruct (Nat.eqb (y_depth y) 0); simpl in H;
-    destruct (in_exec_block (push_frame st h) None (fun s => callee s body)) as [r0 st2] eqn:E;
-    apply in_exec_block_inv in E; destruct E as (sa & sb & C1 & Hrun & C2);
-    destruct (push_frame_fields st h) as (P1&P2&P3&P4&P5); destruct C1 as (A1&A2&A3&A4&A5);
-    exists sa, sb, r0; (split; [congruence|]); (split; [congruence|]); (split; [congruence|]); (split; [auto|]);
-    destruct r0; inversion H; auto.
+    intros callee st f y h body r st' Hl He Hv Hown H.
+    exact (method_call_frame callee st f y h body r st' Hl Hv Hown H).
+  Qed.
+
+  (* 令x = f binds x, as a plain local variable, to the very value the name f denotes; the module graph, the current
+     module and the trace are untouched *)
+  Theorem alias_binds : forall (callee : vm -> list stmt -> res * vm) st x f st',
+    exec_stmt_with callee st (SAlias x f) = (Ok, st') ->
+    exists v y, find_element st f = Some v /\
+                scope_lookup (sc_syms (cur_scope st')) x = Some y /\
+                y_val y = v /\ y_ext y = None /\ y_const y = false /\
+                v_mods st' = v_mods st /\ v_cs st' = v_cs st /\ v_trace st' = v_trace st.
+  Proof.
+    intros callee st x f st' H. simpl in H.
+    destruct (find_element st f) as [v|] eqn:Ef; [|discriminate].
+    destruct (declare st x v false None) as [s1|] eqn:Ed; [|discriminate].
+    inversion H; subst s1; clear H.
+    apply declare_ok in Ed. destruct Ed as ((A1&A2&A3&A4&A5) & Hsc & _).
+    exists v, (mkSym x (sc_depth (cur_scope st)) false v None).
+    split; [reflexivity|]. split.
+    - rewrite Hsc. simpl. rewrite name_eqb_refl. reflexivity.
+    - repeat split; auto.
+  Qed.
+
+  (* 令x = f ; （x） where f denotes a method of module h (for instance an imported one): the body runs in h *)
+  Theorem alias_call_frame : forall (callee : vm -> list stmt -> res * vm) st x f h body st1 r st',
+    find_element st f = Some (VFun h body) ->
+    assoc_find (m_exports (get_mod st (cur_id st))) x = None ->
+    exec_stmt_with callee st (SAlias x f) = (Ok, st1) ->
+    exec_stmt_with callee st1 (SCall x) = (r, st') ->
+    exists sa sb r0, v_cs sa = Some h /\ v_mods sa = v_mods st /\ v_trace sa = v_trace st /\
+                     callee sa body = (r0, sb) /\
+                     r = match r0 with Ok => Ok | other => wrap_exc other end.
+  Proof.
+    intros callee st x f h body st1 r st' Hf Hown Ha Hc.
+    destruct (alias_binds callee st x f st1 Ha) as (v & y & Hv & Hl & Hy & _ & _ & Hm & Hcs & Htr).
+    rewrite Hf in Hv. injection Hv as Hv. rewrite <- Hv in Hy.
+    assert (Hown1 : assoc_find (m_exports (get_mod st1 (cur_id st1))) x = None).
+    { unfold get_mod, cur_id. rewrite Hm, Hcs. exact Hown. }
+    destruct (method_call_frame callee st1 x y h body r st' Hl Hy Hown1 Hc) as (sa & sb & r0 & B1 & B2 & B3 & B4 & B5).
+    exists sa, sb, r0. repeat split; congruence.
   Qed.
 End Load.
